@@ -112,6 +112,7 @@ def sort_by_order(
     groups: Dict[int, List[T]] = defaultdict(list)
     after: Dict[str, List[T]] = defaultdict(list)
     before: Dict[str, List[T]] = defaultdict(list)
+    names = set(map(name, elts))
     for elt in elts:
         ordering = order_overriding.get(name(elt), order(elt))
         if ordering is None:
@@ -119,9 +120,12 @@ def sort_by_order(
         elif ordering.order is not None:
             groups[ordering.order].append(elt)
         elif ordering.after is not None:
-            after[get_field_name(ordering.after, methods=True)].append(elt)
+            target = get_field_name(ordering.after, methods=True)
+            # the target can be absent, e.g. a serialized method in deserialization
+            (after[target] if target in names else groups[0]).append(elt)
         elif ordering.before is not None:
-            before[get_field_name(ordering.before, methods=True)].append(elt)
+            target = get_field_name(ordering.before, methods=True)
+            (before[target] if target in names else groups[0]).append(elt)
         else:
             raise NotImplementedError
     if not after and not before and len(groups) == 1:
